@@ -86,6 +86,7 @@ def server_parity(ctx, ncases, nops):
                     continue
                 obs = runner.do(copy.deepcopy(op))
                 sc.learn(op, obs)
+                sc.conn = runner.connected()
                 ops.append(op)
                 thr.append(obs)
                 ctx.count('op.' + op['op'])
